@@ -181,6 +181,9 @@ func (c *compiler) compileCallDeferred(cc *ssa.CallCommon, in ssa.Instruction, s
 func elemsOf(v Value) []Value {
 	switch s := v.(type) {
 	case *SliceV:
+		if s.symLen != nil {
+			unsup("contents of a length-only slice accessed")
+		}
 		if s.obj == nil {
 			return nil
 		}
@@ -276,6 +279,9 @@ func (e *Exec) builtinFn(b *ssa.Builtin, cc *ssa.CallCommon, in ssa.Instruction,
 		return func(args []Value) Value {
 			switch s := args[0].(type) {
 			case *SliceV:
+				if s.symLen != nil {
+					return s.symLen
+				}
 				return BV(64, uint64(s.len))
 			case StrV, *SStrV:
 				return BV(64, uint64(strLen(s)))
